@@ -268,3 +268,14 @@ pub proof fn lemma_not_zero_max(v: {I})
     assert((!v == 0) == (v == {I.max})) by(bit_vector);
     assert((!v == {I.max}) == (v == 0)) by(bit_vector);
 }
+pub proof fn lemma_word_zero_bits(w: {I})
+    ensures (w == 0) == (forall|j: nat| j < {I.bits} ==> !wbit(w, j))
+{
+    if w == 0 {
+        assert forall|j: nat| j < {I.bits} implies !wbit(w, j) by { lemma_wbit_zero(j as {I}); }
+    }
+    if forall|j: nat| j < {I.bits} ==> !wbit(w, j) {
+        assert forall|j: {I}| j < {I.bits} implies wbit(w, j as nat) == wbit(0{I}, j as nat) by { lemma_wbit_zero(j); }
+        lemma_wbit_ext(w, 0{I});
+    }
+}
